@@ -47,7 +47,10 @@ func wedgeClass(dump string) string {
 		if i := strings.IndexByte(g, '\n'); i > 0 {
 			head = g[:i]
 		}
-		if !(strings.Contains(head, "chan send") || strings.Contains(head, "sync.Mutex.Lock") || strings.Contains(head, "sync.RWMutex")) {
+		// goroutines that keep the bubble from becoming quiescent: waiting for a lock or a channel whose other side
+		// is parked for good, or spinning
+		if !(strings.Contains(head, "chan send") || strings.Contains(head, "sync.Mutex.Lock") || strings.Contains(head, "sync.RWMutex") ||
+			((strings.Contains(head, "[running") || strings.Contains(head, "[runnable")) && strings.Contains(head, "synctest bubble"))) {
 			continue
 		}
 		for _, line := range strings.Split(g, "\n") {
